@@ -408,6 +408,10 @@ func fill(r *rand.Rand, s *Schema, d *DNode, schemaKids []*SNode, o DataOpts) {
 					seen[v] = true
 					l.V = append(l.V, v)
 				}
+				if !c.Config && len(l.V) > 0 && r.Intn(2) == 0 {
+					// state data: a leaf-list may repeat values (RFC 7950 7.7: unique only in configuration)
+					l.V = append(l.V, l.V[r.Intn(len(l.V))])
+				}
 				d.Leaves[c.Name] = l
 			}
 		case Container:
